@@ -22,6 +22,7 @@ func main() {
 	tier := fs.String("tier", envOr("VERIF_TIER", "quick"), "quick|thorough")
 	workers := fs.Int("workers", 16, "parallel jobs")
 	solver := fs.String("solver", envOr("VERIF_SOLVER", "z3-new"), "z3-new (5.1.0) | z3 (4.8.12) | cvc5")
+	cross := fs.String("cross", envOr("VERIF_CROSS", ""), "second solver re-deciding every assertion query: z3 (4.8.12) | cvc5 | z3-new; default: cvc5 in the thorough tier")
 	var pos []string
 	args := os.Args[2:]
 	for len(args) > 0 && args[0][0] != '-' {
@@ -51,6 +52,14 @@ func main() {
 		if err != nil {
 			fmt.Printf("INCONCLUSIVE property=%s reason=load failed: %v\n", spec.ID, err)
 			os.Exit(2)
+		}
+		jobSeed = seed
+		crossSolver = *cross
+		if crossSolver == "" && *tier == "thorough" {
+			crossSolver = "z3"
+		}
+		if crossSolver == "none" {
+			crossSolver = ""
 		}
 		cr := runCheck(w, spec, *tier, *workers, *solver)
 		os.Exit(finish(w, *verif, spec, cr, seed))
